@@ -245,4 +245,16 @@ def run(chk, tier):
     chk.expect(ok, "lookup-order", "StandardUidRegistry::index_all", "both-indexes-from-same-entries", "by_keyword <- (alias, e), by_uid <- (uid, e)", t[:200], loc=C.fn_loc(hu))
     hsi = fx.hirfn(f"{DS}::sop_class::init_dictionary")
     chk.expect(f"index_all({DS}::uids::SOP_CLASSES)" in H.show(hsi["body"], 6), "lookup-order", "sop_class::init_dictionary", "indexes-SOP_CLASSES", "d.index_all(SOP_CLASSES)", H.show(hsi["body"], 6)[:120])
+    # the look-ups consult the index with the caller's text itself (no trimming / folding that could map two table rows to one key)
+    n_lk = 0
+    for hl in fx.find_hir(DS, lambda p: "sop_class::" in p and re.search(r"UidDictionary>::(by_uid|by_keyword)$", p) is not None):
+        n_lk += 1
+        nm = hl["path"].split("::")[-1]
+        prm = [b for p_ in (hl.get("params") or [])[1:] for b in H.pat_bindings(p_)]
+        body = H.show(H.peel(hl["body"]), 8)
+        want = (f"self.{nm}.get({prm[0]}).copied()", f"{DS}::sop_class::DICT.{nm}({prm[0]})", f"DICT.{nm}({prm[0]})") if prm else ()
+        slets = [x for x in H.walk(hl["body"]) if H.kind(x) == "slet"]
+        chk.expect(not slets and any(body.replace("Deref(", "(").endswith(w) or w in body for w in want), "lookup-order", hl["path"].split(" as ")[0].split("::")[-1] + "::" + nm, "key-is-the-argument",
+                   f"{nm}: index consulted with the parameter itself", body[:160], loc=C.fn_loc(hl))
+    chk.floor("lookup-order", "SOP class look-up functions", n_lk, 4)
     chk.undecided.append("agreement of the generated table with the published PS3.6 (the generator's input is trusted); the 2^32 lookups themselves")
